@@ -158,6 +158,20 @@ def rule_table_style(prog, rep, tier):
                 if holes and lits and not "".join(lits).lstrip().startswith((":", "param", "type")):
                     tmpl.append(ast.copy_location(ast.Constant(value="".join("{name}" if isinstance(v_, ast.FormattedValue) and isinstance(v_.value, ast.Name) and v_.value.id == "name"
                                                                            else ("{x}" if isinstance(v_, ast.FormattedValue) else v_.value) for v_ in js.values)), js))
+        # a template that ends `<suffix><blanks>` relies on the blanks to differ from a section start: no strip of trailing
+        # blanks may be applied to a value built from it
+        for cst in tmpl:
+            if cst.value.rstrip(" \t").endswith(section_suffix) and not cst.value.endswith(section_suffix):
+                for f in eps_region:
+                    for c in ast.walk(f.node):
+                        if isinstance(c, ast.Call) and isinstance(c.func, ast.Attribute) and c.func.attr in ("rstrip", "strip") \
+                                and (not c.args or (isinstance(c.args[0], ast.Constant) and isinstance(c.args[0].value, str) and " " in c.args[0].value)) \
+                                and any(x is cst for x in ast.walk(c.func.value)):
+                            n += 1
+                            rep.violation(Finding("TABLE-style", "docstring_utils.emit_param_str", "param-line-ends-with:%r" % section_suffix,
+                                                  "the parameter-line template %r is stripped of its trailing blank (%s) and then ends with %r: a parameter without prose is "
+                                                  "read by the google/numpydoc parser as the start of a trailing section, and it and every later parameter are moved into the "
+                                                  "summary" % (cst.value, src(c, 40)[-40:], section_suffix), loc(prog, c)))
         for cst in tmpl:
             n += 1
             if cst.value.endswith(section_suffix) or cst.value.rstrip("\n").endswith(section_suffix) and False:
